@@ -97,13 +97,19 @@ class Recorder:
                    "m": m or {"q": 0, "topic": 0, "prio": 0, "due": 0, "exp": 0, "dl": 0, "ver": 0}})
         return k
 
-    def end(self, k: int, st: str, i: int = 0, ver: int = 0) -> None:
+    def cons_extra(self) -> dict:
+        return {"w": 0}
+
+    def consume_extra(self, i, key, payload, params) -> dict:
+        return {}
+
+    def end(self, k: int, st: str, i: int = 0, ver: int = 0, extra: dict | None = None) -> None:
         self.last_sig = None
         self.observe(None)
         for n in [n for n, d in self.deferred.items() if d["k"] == k]:
             self.emit(self.deferred.pop(n))
         self.open_calls.discard(k)
-        self.emit({"e": "end", "k": k, "st": st, "i": i, "ver": ver})
+        self.emit({"e": "end", "k": k, "st": st, "i": i, "ver": ver, **(extra or {})})
 
     # ---- projection ---------------------------------------------------------------------
     def observe(self, handle) -> None:
@@ -221,7 +227,7 @@ class Recorder:
         q = self.qid(queue_name)
         cat = {"NORMAL": "n", "DELAYED": "d", "DEAD": "x"}[category.value]
         self.emit({"e": "cons", "c": c, "q": q, "cat": cat,
-                   "topics": sorted(self.tid_(t) for t in (topics or []))})
+                   "topics": sorted(self.tid_(t) for t in (topics or [])), **self.cons_extra()})
 
         def wrap(name):
             orig = getattr(cons, name)
@@ -251,7 +257,7 @@ class Recorder:
                         key, payload, params = r
                         i = rec.mid(key.id_)
                         rec.delivered_to[i] = c
-                        rec.end(k, "ok", i, rec.content(key, payload, params))
+                        rec.end(k, "ok", i, rec.content(key, payload, params), rec.consume_extra(i, key, payload, params))
                     else:
                         if name == "finish":
                             rec.on_cons.setdefault(q, set()).discard(c)
